@@ -269,25 +269,36 @@ static var Table_Get(var self, var key);
 
 static int Table_Cmp(var self, var obj) {
   
-  int c;
-  var item0 = Table_Iter_Init(self);
-  var item1 = iter_init(obj);
+  /*
+  ** The order of the slots depends on the insertion history, so two tables
+  ** are compared as mappings: first by size, then by the smallest key whose
+  ** binding the other table lacks, then by the value bound to that key.
+  */
   
-  while (true) {
-    if (item0 is Terminal and item1 is Terminal) { return 0; }
-    if (item0 is Terminal) { return -1; }
-    if (item1 is Terminal) { return  1; }
-    c = cmp(item0, item1);
-    if (c < 0) { return -1; }
-    if (c > 0) { return  1; }
-    c = cmp(Table_Get(self, item0), get(obj, item1));
-    if (c < 0) { return -1; }
-    if (c > 0) { return  1; }
-    item0 = Table_Iter_Next(self, item0);
-    item1 = iter_next(obj, item1);
+  size_t n0 = ((struct Table*)self)->nitems;
+  size_t n1 = len(obj);
+  if (n0 isnt n1) { return n0 < n1 ? -1 : 1; }
+  
+  var key0 = NULL;
+  var key1 = NULL;
+  
+  foreach (key in self) {
+    if (mem(obj, key) and eq(Table_Get(self, key), get(obj, key))) { continue; }
+    if (key0 is NULL or lt(key, key0)) { key0 = key; }
   }
   
-  return 0;
+  foreach (key in obj) {
+    if (Table_Mem(self, key) and eq(get(obj, key), Table_Get(self, key))) { continue; }
+    if (key1 is NULL or lt(key, key1)) { key1 = key; }
+  }
+  
+  if (key0 is NULL or key1 is NULL) { return 0; }
+  
+  int c = cmp(key0, key1);
+  if (c < 0) { return -1; }
+  if (c > 0) { return  1; }
+  c = cmp(Table_Get(self, key0), get(obj, key1));
+  return c < 0 ? -1 : c > 0 ? 1 : 0;
   
 }
 
